@@ -418,6 +418,11 @@ func (a *AggregatePlan) batch(ctx *ExecuteCtx) ([][]Column, error) {
 	for count < PlanBatchSize {
 		aggrRow := a.aggrRows[a.pos]
 		a.pos++
+		// The per-row field cache is keyed by field name only: what it holds
+		// belongs to the previous group
+		if ctx != nil {
+			ctx.Clear()
+		}
 		row := make([]Column, len(a.aggrFields))
 		for i, col := range aggrRow {
 			if col.IsKey {
@@ -486,6 +491,11 @@ func (a *AggregatePlan) next(ctx *ExecuteCtx) ([]Column, error) {
 	}
 	aggrRow := a.aggrRows[a.pos]
 	a.pos++
+	// The per-row field cache is keyed by field name only: what it holds
+	// belongs to the previous group
+	if ctx != nil {
+		ctx.Clear()
+	}
 	row := make([]Column, len(a.aggrFields))
 	for i, col := range aggrRow {
 		if col.IsKey {
